@@ -1,10 +1,10 @@
 //! JSON built-in methods
 
 use crate::error::JsError;
-use crate::gc::Guard;
+use crate::gc::{Gc, Guard};
 use crate::interpreter::Interpreter;
 use crate::prelude::{FxHashSet, String, ToString, Vec, format, math};
-use crate::value::{ExoticObject, Guarded, JsObject, JsString, JsValue, PropertyKey};
+use crate::value::{CheapClone, ExoticObject, Guarded, JsObject, JsString, JsValue, PropertyKey};
 
 /// Deepest object/array nesting `JSON.stringify` / `js_value_to_json` will follow.
 const MAX_JSON_NESTING: usize = 500;
@@ -84,12 +84,11 @@ pub fn init_json(interp: &mut Interpreter) {
 }
 
 pub fn json_stringify(
-    _interp: &mut Interpreter,
+    interp: &mut Interpreter,
     _this: JsValue,
     args: &[JsValue],
 ) -> Result<Guarded, JsError> {
     let value = args.first().cloned().unwrap_or(JsValue::Undefined);
-    // Second argument is replacer (not implemented, ignored)
     // Third argument is space/indent
     let indent = args.get(2).cloned().unwrap_or(JsValue::Undefined);
 
@@ -98,64 +97,320 @@ pub fn json_stringify(
         return Ok(Guarded::unguarded(JsValue::Undefined));
     }
 
-    // Track visited objects for circular reference detection
-    let mut visited = FxHashSet::default();
-    let json = js_value_to_json_with_visited(&value, &mut visited)?;
+    // Second argument: a replacer function, or an array naming the properties to keep
+    let mut ctx = StringifyContext {
+        replacer: None,
+        allowed_keys: None,
+        visited: FxHashSet::default(),
+    };
+    if let Some(JsValue::Object(rep)) = args.get(1) {
+        if is_callable(&JsValue::Object(rep.cheap_clone())) {
+            ctx.replacer = Some(JsValue::Object(rep.cheap_clone()));
+        } else if let Some(items) = rep.borrow().array_elements() {
+            let mut keys: Vec<String> = Vec::new();
+            for item in items {
+                let key = match item {
+                    JsValue::String(text) => Some(text.to_string()),
+                    JsValue::Number(n) => Some(crate::value::number_to_string(*n)),
+                    JsValue::Object(o) => match &o.borrow().exotic {
+                        ExoticObject::StringObj(text) => Some(text.to_string()),
+                        ExoticObject::Number(n) => Some(crate::value::number_to_string(*n)),
+                        _ => None,
+                    },
+                    _ => None,
+                };
+                if let Some(key) = key
+                    && !keys.contains(&key)
+                {
+                    keys.push(key);
+                }
+            }
+            ctx.allowed_keys = Some(keys);
+        }
+    }
 
-    let output = match indent {
-        JsValue::Number(n) if n > 0.0 => {
-            // Use pretty printing with indentation
-            let indent_size = n.min(10.0) as usize;
-            serde_json::to_string_pretty(&json)
-                .map(|s| {
-                    // serde_json uses 2 spaces by default, adjust if needed
-                    if indent_size == 2 {
-                        s
-                    } else {
-                        // Re-indent with the requested size
-                        let indent_str = " ".repeat(indent_size);
-                        s.lines()
-                            .map(|line| {
-                                let stripped = line.trim_start();
-                                let leading_spaces = line.len() - stripped.len();
-                                let indent_level = leading_spaces / 2;
-                                format!("{}{}", indent_str.repeat(indent_level), stripped)
-                            })
-                            .collect::<Vec<_>>()
-                            .join("\n")
-                    }
-                })
-                .unwrap_or_else(|_| json.to_string())
-        }
-        JsValue::String(s) if !s.is_empty() => {
-            // Use string as indent
-            let indent_str = s.as_str();
-            serde_json::to_string_pretty(&json)
-                .map(|s| {
-                    s.lines()
-                        .map(|line| {
-                            let stripped = line.trim_start();
-                            let leading_spaces = line.len() - stripped.len();
-                            let indent_level = leading_spaces / 2;
-                            format!(
-                                "{}{}",
-                                indent_str
-                                    .chars()
-                                    .take(10)
-                                    .collect::<String>()
-                                    .repeat(indent_level),
-                                stripped
-                            )
-                        })
-                        .collect::<Vec<_>>()
-                        .join("\n")
-                })
-                .unwrap_or_else(|_| json.to_string())
-        }
-        _ => json.to_string(),
+    // SerializeJSONProperty on the wrapper { "": value }
+    let holder_guard = interp.heap.create_guard();
+    let holder = interp.create_object(&holder_guard);
+    holder
+        .borrow_mut()
+        .set_property(PropertyKey::String(interp.intern("")), value.clone());
+    let Some(json) = serialize_json_property(interp, &mut ctx, &JsValue::Object(holder), "", value)?
+    else {
+        return Ok(Guarded::unguarded(JsValue::Undefined));
     };
 
+    // The gap: up to ten spaces, or the first ten characters of a string
+    let gap: String = match indent {
+        JsValue::Number(n) if n >= 1.0 => " ".repeat(n.min(10.0) as usize),
+        JsValue::String(s) => s.as_str().chars().take(10).collect(),
+        _ => String::new(),
+    };
+    let mut output = String::new();
+    write_json_text(&json, &gap, "", &mut output);
+
     Ok(Guarded::unguarded(JsValue::String(JsString::from(output))))
+}
+
+/// Print a JSON tree the way JSON.stringify does: numbers as Number::toString prints
+/// them, members separated by "," (and ": " / newlines / the gap when a gap is given)
+fn write_json_text(value: &serde_json::Value, gap: &str, indent: &str, out: &mut String) {
+    match value {
+        serde_json::Value::Null => out.push_str("null"),
+        serde_json::Value::Bool(b) => out.push_str(if *b { "true" } else { "false" }),
+        serde_json::Value::Number(n) => {
+            if let Some(i) = n.as_i64() {
+                out.push_str(&i.to_string());
+            } else if let Some(u) = n.as_u64() {
+                out.push_str(&u.to_string());
+            } else {
+                let f = n.as_f64().unwrap_or(0.0);
+                out.push_str(&crate::value::number_to_string(f));
+            }
+        }
+        serde_json::Value::String(text) => {
+            out.push_str(&serde_json::to_string(text).unwrap_or_else(|_| "\"\"".to_string()));
+        }
+        serde_json::Value::Array(items) => {
+            if items.is_empty() {
+                out.push_str("[]");
+                return;
+            }
+            let inner = format!("{}{}", indent, gap);
+            out.push('[');
+            for (i, item) in items.iter().enumerate() {
+                if i > 0 {
+                    out.push(',');
+                }
+                if !gap.is_empty() {
+                    out.push('\n');
+                    out.push_str(&inner);
+                }
+                write_json_text(item, gap, &inner, out);
+            }
+            if !gap.is_empty() {
+                out.push('\n');
+                out.push_str(indent);
+            }
+            out.push(']');
+        }
+        serde_json::Value::Object(map) => {
+            if map.is_empty() {
+                out.push_str("{}");
+                return;
+            }
+            let inner = format!("{}{}", indent, gap);
+            out.push('{');
+            for (i, (key, item)) in map.iter().enumerate() {
+                if i > 0 {
+                    out.push(',');
+                }
+                if !gap.is_empty() {
+                    out.push('\n');
+                    out.push_str(&inner);
+                }
+                out.push_str(&serde_json::to_string(key).unwrap_or_else(|_| "\"\"".to_string()));
+                out.push(':');
+                if !gap.is_empty() {
+                    out.push(' ');
+                }
+                write_json_text(item, gap, &inner, out);
+            }
+            if !gap.is_empty() {
+                out.push('\n');
+                out.push_str(indent);
+            }
+            out.push('}');
+        }
+    }
+}
+
+/// State of one JSON.stringify call
+struct StringifyContext {
+    replacer: Option<JsValue>,
+    allowed_keys: Option<Vec<String>>,
+    /// objects on the current path (cycle detection, nesting bound)
+    visited: FxHashSet<usize>,
+}
+
+/// SerializeJSONProperty: toJSON, then the replacer function, then the value by type.
+/// `None` means "no JSON text" (undefined, functions, symbols): omitted from objects,
+/// null inside arrays, undefined at the top.
+fn serialize_json_property(
+    interp: &mut Interpreter,
+    ctx: &mut StringifyContext,
+    holder: &JsValue,
+    key: &str,
+    value: JsValue,
+) -> Result<Option<serde_json::Value>, JsError> {
+    let mut value = value;
+    // values produced by user code stay alive until this property is done
+    let guard = interp.heap.create_guard();
+    let keep = |v: &JsValue| {
+        if let JsValue::Object(o) = v {
+            guard.guard(o.cheap_clone());
+        }
+    };
+    keep(&value);
+
+    if let JsValue::Object(obj) = &value {
+        let to_json_key = PropertyKey::String(interp.intern("toJSON"));
+        let to_json = read_property(interp, obj, &to_json_key, &value)?;
+        if is_callable(&to_json) {
+            let key_arg = JsValue::String(JsString::from(key));
+            let Guarded { value: v, guard: _g } =
+                interp.call_function(to_json, value.clone(), &[key_arg])?;
+            keep(&v);
+            value = v;
+        }
+    }
+    if let Some(replacer) = ctx.replacer.clone() {
+        let key_arg = JsValue::String(JsString::from(key));
+        let Guarded { value: v, guard: _g } =
+            interp.call_function(replacer, holder.clone(), &[key_arg, value.clone()])?;
+        keep(&v);
+        value = v;
+    }
+
+    let obj = match &value {
+        JsValue::Undefined | JsValue::Symbol(_) => return Ok(None),
+        JsValue::Object(obj) => obj.cheap_clone(),
+        primitive => {
+            let mut fresh = FxHashSet::default();
+            return Ok(Some(js_value_to_json_with_visited(primitive, &mut fresh)?));
+        }
+    };
+    if is_callable(&value) {
+        return Ok(None);
+    }
+
+    // Wrapper objects print as their primitive; collections and regular expressions are
+    // objects without enumerable properties
+    let unwrapped = match &obj.borrow().exotic {
+        ExoticObject::Number(n) => Some(JsValue::Number(*n)),
+        ExoticObject::StringObj(text) => Some(JsValue::String(text.cheap_clone())),
+        ExoticObject::Boolean(b) => Some(JsValue::Boolean(*b)),
+        _ => None,
+    };
+    if let Some(primitive) = unwrapped {
+        let mut fresh = FxHashSet::default();
+        return Ok(Some(js_value_to_json_with_visited(&primitive, &mut fresh)?));
+    }
+    if matches!(
+        obj.borrow().exotic,
+        ExoticObject::Map { .. } | ExoticObject::Set { .. }
+    ) {
+        return Ok(Some(serde_json::Value::Object(serde_json::Map::new())));
+    }
+
+    let is_array = obj.borrow().array_elements().is_some();
+    let is_plain = matches!(obj.borrow().exotic, ExoticObject::Ordinary);
+    if !is_array && !is_plain {
+        // Dates without toJSON, wrappers, enums, raw JSON, collections: as the host-side
+        // conversion prints them (Symbol wrappers have no JSON text)
+        if matches!(obj.borrow().exotic, ExoticObject::Symbol(_)) {
+            return Ok(None);
+        }
+        return Ok(Some(js_value_to_json_with_visited(&value, &mut ctx.visited)?));
+    }
+
+    let obj_id = obj.id();
+    if ctx.visited.contains(&obj_id) {
+        return Err(JsError::type_error(
+            "Converting circular structure to JSON".to_string(),
+        ));
+    }
+    if ctx.visited.len() >= MAX_JSON_NESTING {
+        return Err(JsError::range_error(
+            "Converting too deeply nested structure to JSON",
+        ));
+    }
+    ctx.visited.insert(obj_id);
+
+    let result = if is_array {
+        let length = obj.borrow().array_elements().map(|e| e.len()).unwrap_or(0);
+        let mut items = Vec::with_capacity(length);
+        for i in 0..length {
+            // read live: a toJSON / replacer call may have changed the array
+            let element = obj
+                .borrow()
+                .array_elements()
+                .and_then(|e| e.get(i).cloned())
+                .unwrap_or(JsValue::Undefined);
+            let text = i.to_string();
+            match serialize_json_property(interp, ctx, &value, &text, element) {
+                Ok(Some(item)) => items.push(item),
+                Ok(None) => items.push(serde_json::Value::Null),
+                Err(e) => {
+                    ctx.visited.remove(&obj_id);
+                    return Err(e);
+                }
+            }
+        }
+        serde_json::Value::Array(items)
+    } else {
+        let own = super::object::own_enumerable_slots(&value);
+        let mut keys: Vec<PropertyKey> = own
+            .iter()
+            .filter(|(k, _)| !k.is_symbol())
+            .map(|(k, _)| k.clone())
+            .collect();
+        if let Some(allowed) = &ctx.allowed_keys {
+            // the property list decides both membership and order
+            let present: Vec<PropertyKey> = allowed
+                .iter()
+                .filter_map(|name| keys.iter().find(|k| k.to_string() == *name).cloned())
+                .collect();
+            keys = present;
+        }
+        let mut map = serde_json::Map::new();
+        for prop_key in keys {
+            let member = match read_property(interp, &obj, &prop_key, &value) {
+                Ok(v) => v,
+                Err(e) => {
+                    ctx.visited.remove(&obj_id);
+                    return Err(e);
+                }
+            };
+            keep(&member);
+            let name = prop_key.to_string();
+            match serialize_json_property(interp, ctx, &value, &name, member) {
+                Ok(Some(item)) => {
+                    map.insert(name, item);
+                }
+                Ok(None) => {}
+                Err(e) => {
+                    ctx.visited.remove(&obj_id);
+                    return Err(e);
+                }
+            }
+        }
+        serde_json::Value::Object(map)
+    };
+    ctx.visited.remove(&obj_id);
+    Ok(Some(result))
+}
+
+/// [[Get]] of an own or inherited property, invoking a getter with `receiver` as this
+fn read_property(
+    interp: &mut Interpreter,
+    obj: &Gc<JsObject>,
+    key: &PropertyKey,
+    receiver: &JsValue,
+) -> Result<JsValue, JsError> {
+    let descriptor = obj.borrow().get_property_descriptor(key);
+    match descriptor {
+        Some((prop, _)) if prop.is_accessor() => match prop.getter() {
+            Some(getter) => {
+                let Guarded { value, guard: _g } =
+                    interp.call_function(JsValue::Object(getter.cheap_clone()), receiver.clone(), &[])?;
+                Ok(value)
+            }
+            None => Ok(JsValue::Undefined),
+        },
+        Some((prop, _)) => Ok(prop.value.clone()),
+        None => Ok(JsValue::Undefined),
+    }
 }
 
 pub fn json_parse(
